@@ -433,6 +433,17 @@ def family_scope():
     add("method_param_shadows_global", "W = 1\n\nclass C:\n    def meth(self, W):\n        return W + 1\n\ndef f(a, b, c):\n    o = C()\n    return o.meth(a) + W\n")
     add("method_reads_global", "Q = 4\n\nclass C:\n    def meth(self, d):\n        return Q + d\n\ndef f(a, b, c):\n    o = C()\n    return o.meth(a)\n")
     add("closure_in_branch", "def f(a, b, c):\n    m = a\n    if c:\n        def inner():\n            return m + 1\n        return inner()\n    return m\n")
+    add("closure_in_method_vs_global", "g = 1\n\nclass K:\n    def m(self, a):\n        g = a + 1\n        def inner():\n            return g\n        return inner()\n\n"
+        "def f(a, b, c):\n    o = K()\n    return o.m(a) + g\n")
+    add("param_named_like_later_function", "def scale(v, helper):\n    total = v * 2\n    return helper(total)\n\ndef helper(x):\n    return x + 1\n\n"
+        "def total():\n    return 0\n\ndef f(a, b, c):\n    return scale(a, helper) + total()\n")
+    add("local_named_like_earlier_function", "def util(x):\n    return x + 1\n\ndef f(a, b, c):\n    r = util(a)\n    util2 = b\n    return w1(r) + util2\n\n"
+        "def w1(util):\n    return util * 2\n")
+    add("local_named_like_class", "class Box:\n    def __init__(self):\n        self.v = 1\n\ndef f(a, b, c):\n    o = Box()\n    return w2(a) + o.v\n\n"
+        "def w2(Box):\n    return Box + 1\n")
+    add("global_named_like_later_param", "limit = 10\n\ndef f(a, b, c):\n    return clamp(a, 3) + limit\n\ndef clamp(v, limit):\n    if v > limit:\n        return limit\n    return v\n")
+    add("method_local_vs_global_and_closure", "n = 7\n\nclass K:\n    def m(self, a):\n        n = a\n        def i1():\n            def i2():\n                return n + 1\n            return i2()\n        return i1()\n\n"
+        "def f(a, b, c):\n    return K().m(a) + n\n")
     add("nested_same_name_params", "def f(a, b, c):\n    def q(a):\n        def r(a):\n            return a + 1\n        return r(a + 10)\n    return q(b) + a\n")
     return P
 
@@ -500,3 +511,45 @@ def family_calls_generated(limit=72):
             L.append("return s")
             out.append(prog(f"callgen{idx:03d}", "F-call", L, helpers=helpers))
     return out[:limit]
+
+
+# ---- F-taint (C10/C11 program-level legs) ----------------------------------------------------------------------------------
+TAINT_SETTINGS = {
+    "entry.yaml": '- method_list: ["%unit_init"]\n',
+    "source.yaml": '- lang: python\n  rules:\n    - operation: call_stmt\n      name: source\n      tag: ["%target"]\n',
+    "sink.yaml": '- lang: python\n  rules:\n    - operation: call_stmt\n      name: sink\n      target: [\\%arg0]\n      vuln_type: generic_sink\n',
+    "propagation.yaml": '- lang: python\n  rules:\n  - operation: assign_stmt\n    src: operand1\n    dst:\n      - [\\%target]\n',
+    "source_from_code.yaml": "[]\n", "sink_from_code.yaml": "[]\n", "icall.yaml": "[]\n",
+}
+
+
+def family_taint():
+    """(flowing programs, non-flowing programs); sinks are guarded by unknown inputs"""
+    F, N = [], []
+    KO = "class Box:\n    def __init__(self, v):\n        self.v = v\n"
+
+    def add(lst, name, lines, helpers=""):
+        p = prog(name, "F-taint", lines, helpers=helpers)
+        p["src"] += TAIL
+        lst.append(p)
+    add(F, "t_direct", ["t = source()", "sink(t)", "return 0"])
+    add(F, "t_copy", ["t = source()", "u = t", "sink(u)", "return 0"])
+    add(F, "t_copy_chain_guarded", ["t = source()", "u = t", "w = u", "if c:", "    sink(w)", "return 0"])
+    add(F, "t_binop", ["t = source()", "u = t + 1", "sink(u)", "return 0"])
+    add(F, "t_branch_assign", ["u = 0", "if c:", "    u = source()", "sink(u)", "return 0"])
+    add(F, "t_param", ["t = source()", "pass_to(t)", "return 0"], helpers="def pass_to(p):\n    sink(p)\n")
+    add(F, "t_return", ["u = get()", "sink(u)", "return 0"], helpers="def get():\n    return source()\n")
+    add(F, "t_through_identity", ["t = source()", "u = ident(t)", "sink(u)", "return 0"], helpers="def ident(p):\n    return p\n")
+    add(F, "t_field", ["o = Box(0)", "o.v = source()", "u = o.v", "sink(u)", "return 0"], helpers=KO)
+    add(F, "t_ctor_field", ["t = source()", "o = Box(t)", "sink(o.v)", "return 0"], helpers=KO)
+    add(F, "t_list_element", ["t = source()", "l = [1, t]", "u = l[1]", "sink(u)", "return 0"])
+    add(F, "t_two_sinks", ["t = source()", "if c:", "    sink(t)", "else:", "    u = t", "    sink(u)", "return 0"])
+    add(F, "t_two_sources", ["t = source()", "u = source()", "if c:", "    sink(t)", "sink(u)", "return 0"])
+    add(N, "n_other_variable", ["t = source()", "v = 5", "sink(v)", "return 0"])
+    add(N, "n_wrong_position", ["t = source()", "sink(1, t)", "return 0"])
+    add(N, "n_overwritten_before_sink", ["t = source()", "t = 3", "sink(t)", "return 0"])
+    add(N, "n_other_field", ["o = Box(0)", "o.w = source()", "u = o.v", "sink(u)", "return 0"], helpers=KO)
+    add(N, "n_other_object", ["o = Box(0)", "p = Box(1)", "o.v = source()", "sink(p.v)", "return 0"], helpers=KO)
+    add(N, "n_no_source", ["t = 4", "sink(t)", "return 0"])
+    add(N, "n_no_sink", ["t = source()", "out(t)", "return 0"])
+    return F, N
